@@ -319,17 +319,36 @@ class G:
             out.append(t.decl)
             out.append(t.genimpl)
             out.append("")
+        # structs generic over a const parameter (and one over a type and a const): the instantiations differ only by the constant
+        vis = "" if self.private_generics else "pub "
+        cgs = []
+        for k in range(r.randint(1, 2)):
+            name = self.fresh("CG")
+            mixed = r.random() < 0.5
+            params = "<T, const N: usize>" if mixed else "<const N: usize>"
+            fields = (["\tpub a: T,"] if mixed else []) + ['\t#[serde(with = "serde_bytes")]', "\tpub payload: [u8; N],", "\tpub tag: i32,"]
+            out.append("\n".join([self.DERIVES, f"{vis}struct {name}{params} {{"] + fields + ["}"]))
+            gb = "impl<T: Gen, const N: usize> Gen for " + name + "<T, N>" if mixed else "impl<const N: usize> Gen for " + name + "<N>"
+            ginit = ("a: Gen::gen(r, d + 1), " if mixed else "") + "payload: Gen::gen(r, d + 1), tag: Gen::gen(r, d + 1)"
+            out.append(f"{gb} {{\n\tfn gen(r: &mut Rng, d: usize) -> Self {{\n\t\t{name} {{ {ginit} }}\n\t}}\n}}")
+            insts = [f"{name}<i32, {n}>" if mixed else f"{name}<{n}>" for n in (4, 16, 2)]
+            if mixed:
+                insts.append(f"{name}<String, 4>")
+            cgs.append((name, insts))
         # holder struct instantiating every generic at two different arguments
         gens = [t for t in self.types if t.generic]
         checks = []
-        if gens:
+        if gens or cgs:
             lines, gl = [], []
             group = []
+            for i, (name, insts) in enumerate(cgs):
+                for j, inst in enumerate(insts[:2] + insts[3:]):
+                    lines.append(f"\tpub cg{i}_{j}: {inst},")
+                    gl.append(f"\t\t\tcg{i}_{j}: Gen::gen(r, d + 1),")
             for i, g in enumerate(gens):
                 for j, arg in enumerate(["i32", "String"]):
                     lines.append(f"\tpub g{i}_{j}: {g.name}<{arg}>,")
                     gl.append(f"\t\t\tg{i}_{j}: Gen::gen(r, d + 1),")
-            vis = "" if self.private_generics else "pub "
             out.append("\n".join([self.DERIVES, f"{vis}struct GenericHolder {{"] + lines + ["}"]))
             out.append("impl Gen for GenericHolder {\n\tfn gen(r: &mut Rng, d: usize) -> Self {\n\t\tGenericHolder {\n" + "\n".join(gl) + "\n\t\t}\n\t}\n}")
             checks.append(("GenericHolder", "GenericHolder", f"{MODNS}.GenericHolder"))
@@ -337,6 +356,10 @@ class G:
                 for arg in ["i32", "String", "bool"]:
                     checks.append((f"{g.name}<{arg}>", f"{g.name}<{arg}>", None))
                 self.meta["distinct_groups"].append([f"{g.name}<{a}>" for a in ["i32", "String", "bool"]])
+            for name, insts in cgs:
+                for inst in insts:
+                    checks.append((inst, inst, None))
+                self.meta["distinct_groups"].append(list(insts))
         for t in self.types:
             if t.check and not t.generic:
                 checks.append((t.name, t.name, t.fullname if t.kind in ("struct", "unit_enum") else None))
